@@ -145,3 +145,130 @@ Example wkt_err_examples :
   WKT.parse [T (L "POINT"%string); T (L "("%string); TNum 1; T (L ")"%string)] = Err ESyntax /\
   WKT.parse [T (L "POINT"%string); T (L "("%string); T (L "nan"%string); TNum 1; T (L ")"%string)] = Err ESyntax.
 Proof. vm_compute. auto. Qed.
+
+(* ================================================================== TWKB and GeoJSON parts
+   Models: Model/TWKB.v + Model/TWKBQuant.v (C07: geom/twkb_parser.go, twkb_write.go with the
+   repairs F7 and F31 of this property and C07's own) and Model/GeoJSON.v (C06:
+   geom/geojson_unmarshal.go on parsed JSON trees; encoding/json is an oracle). The totality
+   lemmas are the sibling properties' (Proofs/TWKB_proofs.v, TWKBQuant_proofs.v,
+   GeoJSON_proofs.v); they are cited here so that this file covers all four decoders. Names are
+   qualified because the models reuse identifiers. *)
+From SF Require Model.TWKB Model.TWKBQuant Model.GeoJSON.
+From SF Require Proofs.TWKB_proofs Proofs.TWKBQuant_proofs Proofs.GeoJSON_proofs Proofs.Total_all.
+
+(* UnmarshalTWKB(bytes, NoValidate{}) on arbitrary bytes: no panic, fuel never runs out, and the
+   count-sized make() calls request at most 8 bytes per input byte *)
+Theorem twkb_unmarshal_no_panic : forall bs : list N, is_panic (TWKBQuant.unmarshal_f bs) = false.
+Proof. exact Total_all.twkb_unmarshal_no_panic_lemma. Qed.
+Print Assumptions twkb_unmarshal_no_panic.
+
+Theorem twkb_unmarshal_fuel_enough : forall bs : list N, TWKBQuant.unmarshal_f bs <> Err EFuel.
+Proof. exact TWKBQuant_proofs.unmarshal_f_fuel_enough_lemma. Qed.
+Print Assumptions twkb_unmarshal_fuel_enough.
+
+Theorem twkb_unmarshal_alloc_linear : forall bs : list N,
+  match TWKB.dec_full N 0 N.eqb TWKBQuant.dequant bs with
+  | TWKB.TOk _ s => TWKB.s_alloc s | TWKB.TErr _ a => a | TWKB.TPanic _ a => a
+  end <= 8 * N.of_nat (List.length bs).
+Proof. exact TWKBQuant_proofs.unmarshal_f_alloc_linear_lemma. Qed.
+Print Assumptions twkb_unmarshal_alloc_linear.
+
+(* the same for the integer layer (already quantised ordinates) *)
+Theorem twkb_tdec_no_panic : forall bs : list N, is_panic (TWKB.tdec bs) = false.
+Proof. exact Total_all.tdec_is_panic_lemma. Qed.
+Print Assumptions twkb_tdec_no_panic.
+
+Theorem twkb_tdec_alloc_linear : forall bs : list N,
+  TWKB.tdec_alloc bs <= 8 * N.of_nat (List.length bs).
+Proof. exact TWKB_proofs.tdec_alloc_linear_lemma. Qed.
+Print Assumptions twkb_tdec_alloc_linear.
+
+(* UnmarshalGeoJSON(doc, NoValidate{}) on every JSON tree: the index expressions fs[0], fs[1],
+   fs[2], c[j] are guarded by detectCoordinatesLengths *)
+Theorem geojson_unmarshal_no_panic : forall j : GeoJSON.json, is_panic (GeoJSON.gj_unmarshal j) = false.
+Proof. exact GeoJSON_proofs.gj_unmarshal_no_panic_lemma. Qed.
+Print Assumptions geojson_unmarshal_no_panic.
+
+(* ================================================================== re-encoding
+   Every value re-encodes in all four formats without a panic. WKB.enc, WKT.append_wkt and
+   GeoJSON.gj_print are total functions; the content is MarshalTWKB, whose failure branches
+   (coordinates-type mismatch, empty Point inside a MultiPoint, scaled ordinate outside int64 or
+   not finite, precision out of range, ID list of the wrong length or on a simple type) are all
+   error returns. Proved for EVERY option set and EVERY value, hence for everything a decoder
+   returns; the four corollaries spell that out per decoder. *)
+Theorem reencode_total : forall (o : TWKB.topts) (g : geomT N),
+  is_panic (Total_all.reencode_all o g) = false.
+Proof. exact Total_all.reencode_total_lemma. Qed.
+Print Assumptions reencode_total.
+
+Theorem twkb_marshal_no_panic : forall (o : TWKB.topts) (g : geomT N),
+  is_panic (TWKBQuant.marshal_f o g) = false.
+Proof. exact Total_all.marshal_f_np. Qed.
+Print Assumptions twkb_marshal_no_panic.
+
+Theorem twkb_tmarshal_no_panic : forall (o : TWKB.topts) (g : geomT Z),
+  is_panic (TWKB.tmarshal o g) = false.
+Proof. exact Total_all.tmarshal_np. Qed.
+Print Assumptions twkb_tmarshal_no_panic.
+
+Theorem reencode_after_wkb : forall (o : TWKB.topts) (bs : list N) (g : geomT N) (r : list N),
+  WKB.dec bs = Ok (g, r) -> is_panic (Total_all.reencode_all o g) = false.
+Proof. exact Total_all.reencode_after_wkb_lemma. Qed.
+Print Assumptions reencode_after_wkb.
+
+Theorem reencode_after_wkt : forall (o : TWKB.topts) (ts : list WKT.tok) (g : geomT N),
+  WKT.parse ts = Ok g -> is_panic (Total_all.reencode_all o g) = false.
+Proof. exact Total_all.reencode_after_wkt_lemma. Qed.
+Print Assumptions reencode_after_wkt.
+
+Theorem reencode_after_geojson : forall (o : TWKB.topts) (j : GeoJSON.json) (g : geomT N),
+  GeoJSON.gj_unmarshal j = Ok g -> is_panic (Total_all.reencode_all o g) = false.
+Proof. exact Total_all.reencode_after_geojson_lemma. Qed.
+Print Assumptions reencode_after_geojson.
+
+Theorem reencode_after_twkb : forall (o : TWKB.topts) (bs : list N) (g : geomT N) (i : TWKB.tinfo),
+  TWKBQuant.unmarshal_f bs = Ok (g, i) -> is_panic (Total_all.reencode_all o g) = false.
+Proof. exact Total_all.reencode_after_twkb_lemma. Qed.
+Print Assumptions reencode_after_twkb.
+
+(* ================================================================== validation gates
+   UnmarshalWKT / UnmarshalGeoJSON / UnmarshalTWKB without NoValidate, for an arbitrary validator:
+   what is returned is exactly the NoValidate result when it validates; never a panic. *)
+Theorem wkt_gate_exact : forall (validate : geomT N -> bool) (s : list WKT.ch) (g : geomT N),
+  Total_all.unmarshal_wkt_v validate s = Ok g <-> (WKT.unmarshal_wkt s = Ok g /\ validate g = true).
+Proof. exact Total_all.wkt_gate_lemma. Qed.
+Print Assumptions wkt_gate_exact.
+
+Theorem geojson_gate_exact : forall (validate : geomT N -> bool) (j : GeoJSON.json) (g : geomT N),
+  Total_all.unmarshal_geojson_v validate j = Ok g <->
+  (GeoJSON.gj_unmarshal j = Ok g /\ validate g = true).
+Proof. exact Total_all.geojson_gate_lemma. Qed.
+Print Assumptions geojson_gate_exact.
+
+Theorem twkb_gate_exact : forall (validate : geomT N -> bool) (bs : list N) (g : geomT N),
+  Total_all.unmarshal_twkb_v validate bs = Ok g <->
+  (omap fst (TWKBQuant.unmarshal_f bs) = Ok g /\ validate g = true).
+Proof. exact Total_all.twkb_gate_lemma. Qed.
+Print Assumptions twkb_gate_exact.
+
+Theorem validating_decoders_no_panic : forall (validate : geomT N -> bool),
+  (forall s, is_panic (Total_all.unmarshal_wkt_v validate s) = false) /\
+  (forall j, is_panic (Total_all.unmarshal_geojson_v validate j) = false) /\
+  (forall bs, is_panic (Total_all.unmarshal_twkb_v validate bs) = false).
+Proof.
+  intros v. split; [apply Total_all.wkt_v_no_panic_lemma|].
+  split; [apply Total_all.geojson_v_no_panic_lemma|apply Total_all.twkb_v_no_panic_lemma].
+Qed.
+Print Assumptions validating_decoders_no_panic.
+
+(* non-vacuity: the TWKB writer's error branches are reached (an infinity cannot be quantised; an
+   empty Point in a MultiPoint cannot be written), and a plain value re-encodes in all formats *)
+Example reencode_examples :
+  is_err (TWKBQuant.marshal_f Total_all.o_default
+            (GPoint (MkPoint XY (Some (Build_vtx 9218868437227405312 0 0 0))))) = true /\
+  is_err (TWKBQuant.marshal_f Total_all.o_default
+            (GMPoint XY [MkPoint XY None; MkPoint XY (Some (Build_vtx 4607182418800017408 0 0 0))])) = true /\
+  is_ok (Total_all.reencode_all Total_all.o_default
+            (GColl XY [GPoint (MkPoint XY (Some (Build_vtx 4607182418800017408 4611686018427387904 0 0)));
+                       GLine (MkLine XY [])])) = true.
+Proof. vm_compute. auto. Qed.
